@@ -6,7 +6,7 @@ Transcendentals: cos/sin are passed to the extracted model as finite tables
 (exact rational argument -> numpy value); the arguments are obtained from the
 model itself (staged calls), so the model decides *where* cos/sin are taken.
 exp / log / p**kappa of the Held-Suarez part are handled the same way."""
-import datetime, math
+import datetime, math, os, time
 import numpy as np
 from fractions import Fraction
 from harness import util
@@ -49,7 +49,14 @@ GRIDS = {'g8x4': dict(longitude_wavenumbers=3, total_wavenumbers=4, longitude_no
          'gtall': dict(longitude_wavenumbers=3, total_wavenumbers=4, longitude_nodes=6, latitude_nodes=160),
          'gequi': dict(longitude_wavenumbers=3, total_wavenumbers=4, longitude_nodes=8, latitude_nodes=5, latitude_spacing='equiangular'),
          'gpoles': dict(longitude_wavenumbers=3, total_wavenumbers=4, longitude_nodes=8, latitude_nodes=5, latitude_spacing='equiangular_with_poles'),
-         'gfast': dict(longitude_wavenumbers=3, total_wavenumbers=4, longitude_nodes=8, latitude_nodes=4, impl='fast', longitude_offset=1.25)}
+         'gfast': dict(longitude_wavenumbers=3, total_wavenumbers=4, longitude_nodes=8, latitude_nodes=4, impl='fast', longitude_offset=1.25),
+         # SIZE thresholds in the number of latitude nodes: few longitudes, very many Gaussian latitudes (nodes within 0.5 degrees of the poles)
+         'gt300': dict(longitude_wavenumbers=3, total_wavenumbers=4, longitude_nodes=8, latitude_nodes=300),
+         'gt520': dict(longitude_wavenumbers=2, total_wavenumbers=3, longitude_nodes=6, latitude_nodes=520),
+         'gt1030': dict(longitude_wavenumbers=3, total_wavenumbers=4, longitude_nodes=8, latitude_nodes=1030, longitude_offset=0.3),
+         'ge200': dict(longitude_wavenumbers=3, total_wavenumbers=4, longitude_nodes=8, latitude_nodes=200, latitude_spacing='equiangular')}
+# process time zones with daylight saving (IANA name and POSIX rule strings, which need no tz database)
+TZS = ['America/New_York', 'CET-1CEST,M3.5.0,M10.5.0/3', 'EST5EDT,M3.2.0,M11.1.0', 'Australia/Lord_Howe', 'NST3:30NDT,M3.2.0,M11.1.0']
 REFS = {'wb': (1979, 1, 1, 0, 0), 'leap_end': (2000, 12, 31, 23, 59), 'feb29': (1980, 2, 29, 12, 30), 'mid': (2015, 7, 4, 6, 7)}
 
 _jax = None
@@ -99,7 +106,12 @@ def grid_nodes(name):
     d = GRIDS[name]; nx, ny = d['longitude_nodes'], d['latitude_nodes']
     lons = d.get('longitude_offset', 0.0) + 2 * np.pi * np.arange(nx) / nx
     sp = d.get('latitude_spacing', 'gauss')
-    if sp == 'gauss': lats = np.arcsin(np.polynomial.legendre.leggauss(ny)[0])
+    if sp == 'gauss':
+        if ny <= 64:
+            lats = np.arcsin(np.polynomial.legendre.leggauss(ny)[0])
+        else:                      # companion-matrix eigenvalues are slow for hundreds of nodes
+            import scipy.special
+            lats = np.arcsin(scipy.special.roots_legendre(ny)[0])
     elif sp == 'equiangular': lats = -np.pi / 2 + np.pi * (np.arange(ny) + 0.5) / ny
     else: lats = np.linspace(-np.pi / 2, np.pi / 2, ny)
     return lons, lats
@@ -171,10 +183,10 @@ def generate(ctx):
     # reference datetimes (none at Jan 1 midnight except 'wb'), datetime64 references, non-default scales
     if quick:
         gl = ['g8x4', 'g12x6', 'g12x6o', 'g8x4w', 'gpoles', 'gfast']
-        extra = [('gwide', 1), ('gtall', 1), ('gequi', 1), ('g8x4r', 1)]
+        extra = [('gwide', 1), ('gtall', 1), ('gequi', 1), ('g8x4r', 1), ('gt300', 1)]
     else:
         gl = ['g8x4', 'g12x6', 'g16x8', 'T21', 'g12x6o', 'g8x4w', 'gpoles', 'gfast', 'gequi', 'g8x4r', 'g8x6t']
-        extra = [('gwide', 4), ('gtall', 4)]
+        extra = [('gwide', 4), ('gtall', 4), ('gt300', 2), ('gt520', 2), ('gt1030', 2), ('ge200', 2)]
     refs = list(REFS)
     cnt = 0
     for gi, g in enumerate(gl + [e[0] for e in extra]):
@@ -195,11 +207,38 @@ def generate(ctx):
                                 'forms': cnt % (3 if quick else 2) == 1,
                                 'other_days': rng.uniform(-500, 500, 3).tolist()}
     # global mean (not proved): quadrature grids
-    for g in (['g12x6', 'T21', 'g8x4r'] if quick else ['g8x4', 'g12x6', 'g16x8', 'T21', 'T42', 'T85', 'g8x4r', 'gequi', 'gfast']):
+    for g in (['g12x6', 'T21', 'g8x4r', 'gt300'] if quick else ['g8x4', 'g12x6', 'g16x8', 'T21', 'T42', 'T85', 'g8x4r', 'gequi', 'gfast', 'gt300', 'gt1030', 'ge200', 'gwide']):
         for _ in range(3 if quick else 12):
             yield 'globalmean', {'grid': g, 'ref': refs[int(rng.integers(0, len(refs)))], 'days': float(rng.uniform(-20000, 20000))}
+    # process time zone: np.datetime64 instants must mean the same instant in every zone (DST zones, switches inside the windows)
+    tzl = TZS[:2] if quick else TZS
+    for ti, tz in enumerate(tzl):
+        for r in range(1 if quick else 3):
+            year = int(rng.integers(1981, 2031))
+            inst = []
+            for mon, d0 in ((3, 5), (10, 20), (11, 1), (4, 1)):
+                for _ in range(2 if quick else 4):
+                    inst.append([year, mon, d0 + int(rng.integers(0, 12)) if mon != 4 else int(rng.integers(1, 9)), int(rng.integers(0, 24)), int(rng.integers(0, 60))])
+            inst.append([year, 7, 1, 12, 0]); inst.append([year, 1, 1, 0, 0])
+            ctx.count('tz:' + tz)
+            yield 'tz', {'tz': tz, 'grid': ['g8x4', 'g12x6o'][(ti + r) % 2], 'ref': [year - int(rng.integers(0, 3)), int(rng.integers(1, 13)), int(rng.integers(1, 29)), int(rng.integers(0, 24)), int(rng.integers(0, 60))],
+                         'instants': inst, 'spec': 'alt' if (ti + r) % 3 == 2 else 'si'}
     # Held-Suarez
     yield 'hs_defaults', {}
+    # size threshold in the latitude count: drag on tall grids (nodes within 0.5 degrees of the poles)
+    tall = [('gt300', 0, True)] if quick else [('gt300', 0, True), ('gt300', 1, True), ('gt520', 4, True), ('gt1030', 0, True), ('gt1030', 5, False), ('ge200', 1, True), ('T170', 0, False)]
+    for g, pv, domodel in tall:
+        sb = HS_VARIANTS[pv].get('sigma_b', 0.7)
+        b = [0.0, round(sb - 0.15, 3), round(sb + 0.1, 3), 1.0]
+        if g.startswith('T'):
+            M, L = 341, 172
+        else:
+            M, L = 2 * GRIDS[g]['longitude_wavenumbers'] - 1, GRIDS[g]['total_wavenumbers']
+        Mr, Lr = min(M, 9), min(L, 12)      # random low-degree block (the rest of a large state stays zero)
+        st = {f: rng.integers(-16, 17, (3, Mr, Lr)).tolist() for f in ('vor', 'div', 'tv')}
+        ctx.count('hs_tall:grid=' + g)
+        yield 'hs_tall', {'grid': g, 'b': b, 'tref': rng.integers(200, 300, 3).astype(float).tolist(), 'pv': pv, 'spec': 'si',
+                          'state': st, 'model': domodel}
     # coefficients and equilibrium temperature: cheap, many level sets / parameter variants
     nv = len(HS_VARIANTS)
     special = [[0.0, 1.0], [0.0, 0.4, 1.0], [0.0, 0.2, 0.4, 1.0]]      # K = 1; centres exactly AT sigma_b = 0.7 (and 0.5 for variant 1)
@@ -500,7 +539,7 @@ def r_globalmean(ctx, a):
     irr = (1361.0 + 47.0 * np.cos(iop - 3 * 2 * np.pi / 365.25)) * w
     radius = GRIDS.get(a['grid'], {}).get('radius', 1.0) if not a['grid'].startswith('T') else 1.0
     mean = float(g.integrate(f)) / (4 * np.pi * radius ** 2)
-    ny = g.nodal_shape[1]
+    ny = min(g.nodal_shape[1], g.nodal_shape[0] / 2.0)     # coarser direction (equal to the latitude count when nx = 2 ny)
     tol = 3.0 / ny ** 2
     ctx.count('globalmean:grid=' + a['grid'])
     ctx.oracle('global mean equals a quarter of the instantaneous solar constant up to quadrature error',
@@ -788,5 +827,170 @@ def r_hs_terms(ctx, a):
     ctx.oracle('explicit_terms repeatable after evaluating another forcing; parameters unchanged', same and hs_params(F) == P, None)
 
 
+# ---------------------------------------------------------------------------
+# process time zone
+def _indep_phases_dt(ref_dt, days):
+    diy = datetime.datetime(ref_dt.year, 12, 31).timetuple().tm_yday
+    fod = (60 * ref_dt.hour + ref_dt.minute) / 1440.0
+    return 2 * np.pi * (ref_dt.timetuple().tm_yday - 1 + fod) / diy + 2 * np.pi * days / 365.25, 2 * np.pi * fod + 2 * np.pi * days
+
+
+def r_tz(ctx, a):
+    """np.datetime64 arguments denote UTC instants: everything that accepts them must give the same result as the
+    equivalent naive-UTC datetime.datetime in EVERY process time zone.  TZ is restored in the finally block."""
+    j = J(); rad = j['rad']; units = j['units']
+    specs = specs_of(a.get('spec', 'si'))
+    old = os.environ.get('TZ')
+    try:
+        os.environ['TZ'] = a['tz']; time.tzset()
+        ctx.count('tz:zone-has-dst=%s' % bool(time.daylight))
+        ref = datetime.datetime(*a['ref']); ref64 = np.datetime64(ref)
+        coords = j['cs'].CoordinateSystem(grid_of(a['grid']), j['sc'].SigmaCoordinates.equidistant(2))
+        srd = rad.SolarRadiation(coords, specs, ref)
+        sr64 = rad.SolarRadiation(coords, specs, ref64)
+        srn = rad.SolarRadiation.normalized(coords, specs, ref64)
+        # reference phases: model (calendar integers of the UTC reference) vs both objects
+        diy = datetime.datetime(ref.year, 12, 31).timetuple().tm_yday
+        mref = ctx.model.call(7, [diy, ref.timetuple().tm_yday - 1, ref.hour, ref.minute], [[], [], [], [], [PI]])
+        for nm_, o in (('datetime', srd), ('datetime64', sr64), ('datetime64, normalized', srn)):
+            ctx.corr('SolarRadiation.reference_orbital_time (%s reference) in a DST time zone' % nm_,
+                     [float(o.reference_orbital_time.orbital_phase), float(o.reference_orbital_time.synodic_phase)], mref, scale=2 * np.pi)
+        D = float(specs.nondimensionalize(1 * units.day)); P = 1461 * D
+        S, V = float(srd.total_solar_irradiance), float(srd.solar_irradiance_variation)
+        lons, lats = grid_nodes(a['grid'])
+        conv_ok = True; t_ok = True; per_ok = True; worst = None
+        for k, it in enumerate(a['instants']):
+            w = datetime.datetime(*it); w64 = np.datetime64(w)
+            w2 = w + datetime.timedelta(days=1461); w264 = np.datetime64(w2)
+            # the conversion itself
+            if rad.datetime64_to_datetime(w64) != w or rad.datetime64_to_datetime(np.datetime64(w, 'ns')) != w:
+                conv_ok = False; worst = worst or {'instant': it, 'got': str(rad.datetime64_to_datetime(w64))}
+            want = (w - ref).total_seconds() / 86400.0 * D
+            ts = [float(srd.datetime_to_time(w)), float(srd.datetime_to_time(w64)), float(sr64.datetime_to_time(w)), float(sr64.datetime_to_time(w64)),
+                  float(rad.datetime_to_time(w64, specs, ref)), float(rad.datetime_to_time(w, specs, ref64)), float(rad.datetime_to_time(w64, specs, ref64))]
+            tol = 1e-9 * max(abs(want), D)
+            if not all(abs(x - want) <= tol for x in ts):
+                t_ok = False; worst = worst or {'instant': it, 'times_in_days': [x / D for x in ts], 'want_days': want / D}
+            t2 = float(sr64.datetime_to_time(w264))
+            if abs((t2 - ts[3]) - P) > 1e-9 * P:
+                per_ok = False; worst = worst or {'instant': it, 'elapsed_days': (t2 - ts[3]) / D}
+            if k % 3 == 0:
+                # flux at the instant: all reference / instant type combinations agree, night-zero against the independent solar position
+                f_dd = np.asarray(srd.radiation_flux(ts[0])); f_64 = np.asarray(sr64.radiation_flux(ts[3]))
+                f_mix = np.asarray(sr64.radiation_flux(float(sr64.datetime_to_time(w))))
+                big = max(1.0, abs(want / D) * 2 * np.pi)
+                ctx.oracle_close('same instant as datetime and as np.datetime64 gives the same flux in every time zone', f_64, f_dd, scale=(S + V) * big)
+                ctx.oracle_close('same instant as datetime and as np.datetime64 gives the same flux in every time zone (mixed)', f_mix, f_dd, scale=(S + V) * big)
+                iop, isyn = _indep_phases_dt(ref, (w - ref).total_seconds() / 86400.0)
+                s_ref = _indep_sin_altitude(iop, isyn, lons[:, None], lats[None, :])
+                mg = 1e-6 + 1e-12 * big
+                ctx.oracle('flux exactly zero where the sun is below the horizon (np.datetime64 reference and instant, DST time zone)',
+                           bool(np.all(f_64[s_ref < -mg] == 0)), {'instant': it, 'n_night': int((s_ref < -mg).sum()), 'max': float(np.max(f_64[s_ref < -mg], initial=0.0))})
+                ctx.oracle('flux positive where the sun is above the horizon (np.datetime64 reference and instant, DST time zone)',
+                           bool(np.all(f_64[s_ref > mg] > 0)), {'instant': it})
+                ctx.oracle_close('flux = irradiance * max(0, sin altitude) (np.datetime64 reference and instant, DST time zone)',
+                                 f_64, (S + V * np.cos(iop - 3 * 2 * np.pi / 365.25)) * np.maximum(0, s_ref), scale=(S + V) * big, tol_abs=(S + V) * 1e-9 * big)
+                f_p = np.asarray(sr64.radiation_flux(t2))
+                ctx.oracle_close('flux periodic over 1461 days between np.datetime64 instants (across DST switches)', f_p, f_64,
+                                 scale=(S + V) * (big + 1461 * 2 * np.pi))
+                fn = np.asarray(srn.radiation_flux(float(srn.datetime_to_time(w64))))
+                ctx.oracle_close('normalised flux with np.datetime64 reference = flux / (S + V)', fn, f_dd / (S + V), scale=big)
+        ctx.oracle('datetime64_to_datetime returns the UTC wall clock in every process time zone', conv_ok, worst)
+        ctx.oracle('datetime_to_time agrees for datetime / np.datetime64 instants and references in every process time zone', t_ok, worst)
+        ctx.oracle('np.datetime64 instants 1461 days apart are 1461 days of model time apart (across DST switches)', per_ok, worst)
+    finally:
+        if old is None: os.environ.pop('TZ', None)
+        else: os.environ['TZ'] = old
+        time.tzset()
+    ctx.oracle('process time zone restored', os.environ.get('TZ') == old, None)
+
+
+# ---------------------------------------------------------------------------
+# Held-Suarez drag on tall grids (latitude-count thresholds)
+def r_hs_tall(ctx, a):
+    j = J(); jnp = j['jnp']; pe = j['pe']; sh = j['sh']
+    spec = a.get('spec', 'si')
+    F, coords = hs_of(a['grid'], a['b'], a['tref'], a['pv'], spec)
+    g = grid_of(a['grid'])
+    M, L = g.modal_shape; X, Y = g.nodal_shape
+    Pi = hs_params_indep(a['pv'], spec); P = hs_params(F)
+    bb = np.asarray(a['b'], dtype=np.float64); sig_i = (bb[1:] + bb[:-1]) / 2; K = sig_i.size
+    lon_i, lat_i = grid_nodes(a['grid'])
+    ctx.count('hs_tall:min-cos2-below-1e-4=%s' % bool(np.min(np.cos(lat_i) ** 2) < 1e-4))
+    kv, kt_i, _ = hs_indep(Pi, sig_i, lat_i, None, 0.0)
+    l = np.arange(L)[None, :]
+    lowmask = np.asarray(g.mask, dtype=bool) & (l <= L - 2) & (l > 0)
+    st = {}
+    for f in ('vor', 'div', 'tv'):
+        blk = np.asarray(a['state'][f], dtype=np.float64) / 8
+        x = np.zeros((K, M, L)); x[:, :blk.shape[1], :blk.shape[2]] = blk[:K]
+        st[f] = x * lowmask
+    lnps = np.asarray(g.to_modal(jnp.full((X, Y), math.log(P[0]))))[None]
+    state = pe.State(vorticity=jnp.asarray(st['vor']), divergence=jnp.asarray(st['div']),
+                     temperature_variation=jnp.asarray(st['tv']), log_surface_pressure=jnp.asarray(lnps))
+    out = F.explicit_terms(state)
+    o = {'vor': np.asarray(out.vorticity), 'div': np.asarray(out.divergence), 'lnps': np.asarray(out.log_surface_pressure)}
+    smax = max(1.0, float(np.abs(st['vor']).max()), float(np.abs(st['div']).max()))
+    cos2 = np.cos(lat_i) ** 2                                  # independent of the grid object
+    nm = M * L
+    if nm <= 64:
+        # operators on the (small) modal space as matrices; the sec^2 chain uses the INDEPENDENT 1 / cos^2
+        eM = jnp.asarray(np.eye(nm).reshape(nm, M, L)); zM = jnp.zeros((nm, M, L))
+        T = lambda x: np.asarray(x).reshape(nm, nm).T.copy()
+        toN_all = np.asarray(g.to_nodal(eM))                   # (nm, X, Y)
+        chain = T(g.to_modal(jnp.asarray(toN_all / cos2[None, None, :])))
+        cu, cv = sh.get_cos_lat_vector(eM, zM, g, clip=False); CUv, CVv = T(cu), T(cv)
+        cu, cv = sh.get_cos_lat_vector(zM, eM, g, clip=False); CUd, CVd = T(cu), T(cv)
+        CRu, CRv = T(g.curl_cos_lat((eM, zM))), T(g.curl_cos_lat((zM, eM)))
+        DVu, DVv = T(g.div_cos_lat((eM, zM))), T(g.div_cos_lat((zM, eM)))
+        n1 = lambda A: float(np.abs(A).sum(axis=1).max())
+        wind_scale = (n1(CRu) + n1(CRv)) * n1(chain) * max(n1(CUv), n1(CVd))
+        Rvv = CRu @ chain @ CUv + CRv @ chain @ CVv; Rvd = CRu @ chain @ CUd + CRv @ chain @ CVd
+        Rdv = DVu @ chain @ CUv + DVv @ chain @ CVv; Rdd = DVu @ chain @ CUd + DVv @ chain @ CVd
+        low = lowmask.ravel(); I = np.eye(nm)
+        err = max(np.abs((Rvv - I)[:, low]).max(), np.abs(Rvd[:, low]).max(), np.abs(Rdv[:, low]).max(), np.abs((Rdd - I)[:, low]).max())
+        ctx.table_obligation('H_uv_roundtrip', err <= 1e-10, {'grid': a['grid'], 'max_err': float(err), 'modes': int(low.sum())})
+        s = max(abs(Pi[2]), 1e-300) * smax * wind_scale
+        # float64 transcription of C20_hs_drag_through_wind with independent kv and 1 / cos^2
+        vv = st['vor'].reshape(K, nm); dd = st['div'].reshape(K, nm)
+        ctx.oracle_close('vorticity tendency = -kv * curl(to_modal(to_nodal(cos_lat u) / cos^2)) (independent kv and cos^2)',
+                         o['vor'].reshape(K, nm), -kv[:, None] * (vv @ Rvv.T + dd @ Rvd.T), scale=s)
+        ctx.oracle_close('divergence tendency = -kv * div(to_modal(to_nodal(cos_lat u) / cos^2)) (independent kv and cos^2)',
+                         o['div'].reshape(K, nm), -kv[:, None] * (vv @ Rdv.T + dd @ Rdd.T), scale=s)
+    else:
+        # large grid: scale from the norm of the state only (round trip has norm O(1) on low-degree states)
+        s = max(abs(Pi[2]), 1e-300) * smax * 64.0
+    ctx.oracle_close('vorticity tendency = -kv(sigma) * vorticity', o['vor'], -kv[:, None, None] * st['vor'], scale=s, tol_abs=1e-12 * s)
+    ctx.oracle_close('divergence tendency = -kv(sigma) * divergence', o['div'], -kv[:, None, None] * st['div'], scale=s, tol_abs=1e-12 * s)
+    above = sig_i <= Pi[1]
+    ctx.oracle('no drag above the boundary layer', bool(np.all(o['vor'][above] == 0) and np.all(o['div'][above] == 0)), None)
+    ctx.oracle('no surface-pressure tendency', bool(np.all(o['lnps'] == 0)) and o['lnps'].shape == lnps.shape, None)
+    if a.get('model') and nm <= 64:
+        # exact model for the rows next to the poles (where 1 / cos^2 is largest), float64 for the remaining rows:
+        # tendency = sum over nodes p of toM[:, p] * (-kv) * (toN cm)[p] / cos^2[p] is additive in p
+        rows = np.array([0, Y - 1])
+        A = np.array([(x, y) for x in range(X) for y in rows])
+        nA = len(A)
+        toN_A = toN_all[:, A[:, 0], A[:, 1]].T.copy()                                   # (nA, nm)
+        eA = np.zeros((nA, X, Y)); eA[np.arange(nA), A[:, 0], A[:, 1]] = 1.0
+        toM_A = np.asarray(g.to_modal(jnp.asarray(eA))).reshape(nA, nm).T.copy()        # (nm, nA)
+        cosA = np.asarray(g.cos_lat)[A[:, 1]]                                            # what the implementation divides by
+        chain_A = toM_A @ (toN_A / (cosA ** 2)[:, None])
+        chain_B = chain - chain_A
+        k = int(np.argmax(kv))                                                           # a level inside the boundary layer
+        mats = [toN_A.ravel(), toM_A.ravel()] + [m_.ravel() for m_ in (CUv, CUd, CVv, CVd, CRu, CRv, DVu, DVv)]
+        one = np.ones(nA)
+        m = ctx.model.call(25, [nm, nA], [P, [sig_i[k], a['tref'][k]], st['vor'][k].ravel(), st['div'][k].ravel(), st['tv'][k].ravel(),
+                                          one, 0 * one, cosA, np.sin(lat_i)[A[:, 1]]] + mats)
+        cmu = CUv @ vv[k] + CUd @ dd[k]; cmv = CVv @ vv[k] + CVd @ dd[k]
+        restv = -kv[k] * (CRu @ (chain_B @ cmu) + CRv @ (chain_B @ cmv))
+        restd = -kv[k] * (DVu @ (chain_B @ cmu) + DVv @ (chain_B @ cmv))
+        ctx.corr('explicit_terms.vorticity (polar rows by the exact model, remaining rows in float64)', o['vor'][k].ravel(),
+                 [m[i] + Fraction(float(restv[i])) for i in range(nm)], scale=s)
+        ctx.corr('explicit_terms.divergence (polar rows by the exact model, remaining rows in float64)', o['div'][k].ravel(),
+                 [m[nm + i] + Fraction(float(restd[i])) for i in range(nm)], scale=s)
+
+
 RUNNERS = {'constants': r_constants, 'flux': r_flux, 'reftime': r_reftime, 'solar': r_solar, 'globalmean': r_globalmean,
-           'hs_defaults': r_hs_defaults, 'hs_coeffs': r_hs_coeffs, 'hs_teq': r_hs_teq, 'hs_terms': r_hs_terms}
+           'hs_defaults': r_hs_defaults, 'hs_coeffs': r_hs_coeffs, 'hs_teq': r_hs_teq, 'hs_terms': r_hs_terms,
+           'tz': r_tz, 'hs_tall': r_hs_tall}
